@@ -42,6 +42,11 @@ pub enum Action {
     NoReply,
     /// write these raw bytes into the response stream instead of a response frame
     Garbage(Vec<u8>),
+    /// streamed raw reply that is never materialised: write `head`, then `fill_len` bytes where byte i
+    /// (0-based, counted from the first fill byte) = ((i + seed) % 251) as u8 with `inserts`
+    /// (offset into the fill, bytes) overriding the pattern, then `tail`; written in <= 64 KiB chunks.
+    /// Traced as `Ev::RawFillOut` (the description, not the bytes). Counts as one written response.
+    RawFill { head: Vec<u8>, fill_len: u64, seed: u8, inserts: Vec<(u64, Vec<u8>)>, tail: Vec<u8> },
     /// from now on the connection is silent: requests are read and traced, nothing is ever written
     Stall,
     /// close the connection instead of answering
@@ -211,6 +216,8 @@ pub enum Ev {
     Out { version: u8, flags: u8, stream: i16, opcode: u8, body: Vec<u8>, written: usize },
     /// raw bytes written into the response stream (Action::Garbage)
     RawOut { bytes: Vec<u8> },
+    /// a streamed raw reply (Action::RawFill): its description, not its bytes
+    RawFillOut { head: Vec<u8>, fill_len: u64, seed: u8, inserts: Vec<(u64, Vec<u8>)>, tail: Vec<u8> },
     /// the connection went silent (Action::Stall)
     Stalled,
     Close { by: CloseBy },
